@@ -70,6 +70,10 @@ fn byte_viol(ctx: &Ctx, imp: u8, op: &str, what: &str, exp: &str, obs: &str, spe
     })
 }
 
+/// `pos == -3`: a dense run of matches behind a clean prefix
+const RUN_AT: usize = 200;
+const RUN_LEN: usize = 96;
+
 pub const OP_FIND: u8 = 1;
 pub const OP_RFIND: u8 = 2;
 pub const OP_COUNT: u8 = 4;
@@ -100,10 +104,21 @@ fn byte_case(ctx: &Ctx, b: &mut Buf, s: usize, arity: usize, which: usize, fill_
     if pos >= 0 {
         b.set(pos as usize, planted);
     }
+    let run_fill = b.hay()[RUN_AT];
+    if pos == -3 {
+        for i in RUN_AT..RUN_AT + RUN_LEN {
+            b.set(i, planted);
+        }
+    }
     let spec = json!({"len": len, "s": s, "arity": arity, "which": which, "fill_kind": fill_kind, "pos": pos, "ops": ops, "needles": hex(needles), "start_mod_4096": b.addr() % 4096});
     let r = byte_case_run(ctx, b.hay(), arity, pos, ops, &spec, frag);
     if let Some(old) = restore {
         b.set(pos as usize, old);
+    }
+    if pos == -3 {
+        for i in RUN_AT..RUN_AT + RUN_LEN {
+            b.set(i, run_fill);
+        }
     }
     r
 }
@@ -114,6 +129,7 @@ fn byte_case_run(ctx: &Ctx, hay: &[u8], arity: usize, pos: i64, ops: u8, spec: &
     let (efind, erfind, ecount): (Option<usize>, Option<usize>, usize) = match pos {
         -1 => (None, None, 0),
         -2 => (Some(0), Some(len - 1), len),
+        -3 => (Some(RUN_AT), Some(RUN_AT + RUN_LEN - 1), RUN_LEN),
         p => (Some(p as usize), Some(p as usize), 1),
     };
     let judge_values = ctx.prop != "C14";
@@ -209,6 +225,7 @@ fn byte_combo(ctx: &Ctx, len: usize, s: usize, arity: usize, which: usize, frag:
             poss = poss.into_iter().enumerate().filter(|(i, _)| i % 5 == which).map(|(_, x)| x).collect();
         }
         poss.push(-1);
+        poss.push(-3);
         for pos in poss {
             if let Some(v) = byte_case(ctx, &mut b, s, arity, which, fill_kind, pos, OP_FIND, frag) {
                 return Some(v);
@@ -222,6 +239,7 @@ fn byte_combo(ctx: &Ctx, len: usize, s: usize, arity: usize, which: usize, frag:
             poss = poss.into_iter().enumerate().filter(|(i, _)| i % 5 == which).map(|(_, x)| x).collect();
         }
         poss.push(-1);
+        poss.push(-3);
         for pos in poss {
             if let Some(v) = byte_case(ctx, &mut b, s, arity, which, fill_kind, pos, OP_RFIND, frag) {
                 return Some(v);
@@ -238,6 +256,7 @@ fn byte_combo(ctx: &Ctx, len: usize, s: usize, arity: usize, which: usize, frag:
     if ops != 0 {
         let mut poss = few_positions(len, addr);
         poss.push(-1);
+        poss.push(-3);
         for pos in poss {
             if let Some(v) = byte_case(ctx, &mut b, s, arity, which, fill_kind, pos, ops, frag) {
                 return Some(v);
